@@ -72,6 +72,16 @@ theorem importFrom_recs : ∀ (rs : List Rec) (s : State), (newIds s.counter rs)
       refine ⟨?_, hf id (List.mem_cons_of_mem _ hid)⟩
       intro e; subst e; exact hn.1 hid
 
+theorem importFrom_empty_recs (rs : List Rec) (hnc : (newIds 0 rs).Nodup) :
+    (importFrom {} rs).recs = (newIds 0 rs).zip rs := by
+  have := importFrom_recs rs {} hnc (by intro id _; simp [AMap.keys])
+  simpa using this
+
+theorem importFrom_empty_snd (rs : List Rec) (hnc : (newIds 0 rs).Nodup) :
+    (importFrom {} rs).recs.map (fun e => e.2) = rs := by
+  rw [importFrom_empty_recs rs hnc, List.map_snd_zip]
+  rw [length_newIds]; exact Nat.le_refl _
+
 /-! ### reachable stores hold only records with contents, so their export validates -/
 
 def RecsOk (s : State) : Prop := ∀ e ∈ s.recs, e.2.contents.isEmpty = false
